@@ -1,0 +1,54 @@
+//go:build verif
+
+package main
+
+import (
+	"context"
+	"encoding/json"
+	"os"
+
+	"github.com/sirupsen/logrus"
+
+	"github.com/atlassian/gostatsd"
+	"github.com/atlassian/gostatsd/pkg/cachedinstances/cloudprovider"
+)
+
+// verifC12Provider is a cloud provider that is never called.
+type verifC12Provider struct{}
+
+func (verifC12Provider) Name() string           { return "verif" }
+func (verifC12Provider) MaxInstancesBatch() int { return 1 }
+func (verifC12Provider) EstimatedTags() int     { return 0 }
+func (verifC12Provider) Instance(context.Context, ...gostatsd.Source) (map[gostatsd.Source]*gostatsd.Instance, error) {
+	return nil, nil
+}
+
+// With VERIF_C12_CONFIG set, the binary runs the configuration code of main() for the instance
+// cache — setupConfiguration on its command line (flags and --config-path), then
+// newCachedInstancesFromViper, as constructServer does for a cloud provider — prints the options
+// the CachedCloudProvider was built with as one JSON object and exits without starting anything
+// (property C12: the cache behaves according to the configured TTLs / idle period).
+func init() {
+	if os.Getenv("VERIF_C12_CONFIG") == "" {
+		return
+	}
+	out := struct {
+		Refresh, Idle, TTL, NegTTL int64 // ns
+		Rate                       float64
+		Burst                      int
+		Err                        string
+	}{}
+	v, _, err := setupConfiguration()
+	if err != nil {
+		out.Err = "setupConfiguration: " + err.Error()
+	} else if ccp, ok := newCachedInstancesFromViper(logrus.StandardLogger(), verifC12Provider{}, v).(*cloudprovider.CachedCloudProvider); !ok {
+		out.Err = "newCachedInstancesFromViper did not return a CachedCloudProvider"
+	} else {
+		opts, r, b := ccp.VerifOptions()
+		out.Refresh, out.Idle = int64(opts.CacheRefreshPeriod), int64(opts.CacheEvictAfterIdlePeriod)
+		out.TTL, out.NegTTL = int64(opts.CacheTTL), int64(opts.CacheNegativeTTL)
+		out.Rate, out.Burst = r, b
+	}
+	_ = json.NewEncoder(os.Stdout).Encode(out)
+	os.Exit(0)
+}
